@@ -492,6 +492,17 @@ def generate(prop: str, seed: int, tier: str = "quick", fault_free: bool = False
         "live_cap": 48 if big else 24,
     }
     if not fault_free:
+        # configuration of the process the library runs in (swarm style: nothing may depend on
+        # the defaults): warnings turned into errors (-W error), asyncio debug mode, eager task
+        # start (3.12 task factory), cyclic gc off / very eager, Python's default recursion limit
+        e = st.get("env")
+        config["env"] = {
+            "warnings_error": e.random() < 0.2,
+            "asyncio_debug": e.random() < 0.2,
+            "eager_tasks": e.random() < 0.2,
+            "gc": e.choice(["default", "default", "default", "off", "eager"]),
+            "reclimit": 1000 if (e.random() < 0.25 and not big) else None,
+        }
         # how often the checker itself looks keys up between operations (all streams and keys
         # after every step / a random third of the streams / only at the end of the history)
         config["observe"] = x.choice(["all", "all", "all", "sparse", "sparse", "final"])
@@ -982,6 +993,7 @@ class Forest:
         self.oracles = set(case.get("oracles") or [self.prop])
         self.world = vloop.World(Streams(case["sched_seed"]).get("schedule"),
                                  step_cap=self.cfg.get("step_cap", 20000))
+        self.world.env = self.cfg.get("env") or {}
         self.obs_rng = Streams(case["sched_seed"]).get("observe")
         self.events = []  # compact history; its digest is the determinism fingerprint
         self.stats = {}
@@ -1266,6 +1278,7 @@ class Forest:
             self.stat(f"runs_with_logging_{lvl}")
         zoo.setup()
         self.zoo = zoo
+        self.apply_env()
         self.simid = None
         if "lifetime" in self.cfg.get("faults", []):
             from .simid import SimId
@@ -1293,7 +1306,47 @@ class Forest:
         self.client = cl.ClientProgram(self.cfg["sites"], f"{self.case.get('seed', 0)}",
                                        real_dir=real_dir)
 
+    def apply_env(self):
+        import gc
+        import warnings
+
+        env = self.cfg.get("env") or {}
+        self._env_undo = []
+        if env.get("warnings_error"):
+            # what `python -W error` / pytest's filterwarnings=error do: any warning raises.  The
+            # harness's own tolerated warnings (see core.bootstrap) stay in front
+            saved = warnings.filters[:]
+            warnings.resetwarnings()
+            warnings.simplefilter("error")
+            warnings.filterwarnings("ignore", category=RuntimeWarning,
+                                    message="coroutine .* was never awaited")
+            warnings.filterwarnings("ignore", category=ResourceWarning)
+            warnings.filterwarnings("ignore", category=SyntaxWarning)
+            self._env_undo.append(lambda: warnings.filters.__setitem__(slice(None), saved))
+            self.stat("env_warnings_are_errors")
+        if env.get("asyncio_debug"):
+            self.stat("env_asyncio_debug")
+        if env.get("eager_tasks"):
+            self.stat("env_eager_task_factory")
+        g = env.get("gc", "default")
+        if g != "default":
+            thr, was = gc.get_threshold(), gc.isenabled()
+            if g == "off":
+                gc.disable()
+            else:
+                gc.enable()
+                gc.set_threshold(20, 2, 2)
+            self._env_undo.append(lambda: (gc.set_threshold(*thr), gc.enable() if was else gc.disable()))
+            self.stat(f"env_gc_{g}")
+        if env.get("reclimit"):
+            old = sys.getrecursionlimit()
+            sys.setrecursionlimit(env["reclimit"])
+            self._env_undo.append(lambda: sys.setrecursionlimit(old))
+            self.stat("env_default_recursion_limit")
+
     def teardown(self):
+        for undo in reversed(getattr(self, "_env_undo", [])):
+            undo()
         if getattr(self, "simid", None) is not None:
             self.simid.uninstall()
             if self.simid.asked:
